@@ -5,7 +5,7 @@ This module ties the model to /repo/xmldiff/formatting.py by running both on
 the same scenarios (correspondence), and independently evaluates the property
 itself on the implementation (oracle).  Testing validates the model only.
 """
-import itertools, json, random
+import itertools, json, os, random
 from copy import deepcopy
 from harness import lib
 
@@ -85,6 +85,7 @@ def excname(ex):
 #   ["undoraw", tree]           -> undo_tree on a tree given literally
 #   ["subst", n, seed]          -> mark/wrap some placeholders inside document #n (formatter-like), recorded as
 #                                  explicit mark/wrap steps in the trace
+#   ["split", text]             -> split_string(text) and is_placeholder of every character
 #   ["table"]
 # The trace (what the model is asked to reproduce) is a list of
 #   ("op", opterm-data, result) / ("undo", tree_before, result) / ("table", p2t, ctr, t2p)
@@ -153,6 +154,8 @@ def run_impl(sc):
                 trace.append(("undo", before, ["ok", canon(e)]))
             except Exception as ex:  # noqa
                 trace.append(("undo", before, ["err", excname(ex)]))
+        elif k == "split":
+            trace.append(("split", st[1], m.split_string(st[1]), [m.is_placeholder(c) for c in st[1]]))
         elif k == "table":
             trace.append(("table", table_of(m), m.placeholder, t2p_of(m)))
     return m, docs, trace
@@ -422,12 +425,18 @@ def gen_scenarios(run, rng):
         if rng.random() < 0.5:
             steps.append(["do", ptree(2, True)])
         steps.append(["table"])
+        for _ in range(rng.randint(0, 2)):
+            steps.append(["split", ptext() or ""])
         steps.append(["undoraw", ptree(rng.randint(0, 2), True)])
         scs.append({"kind": "adversarial", "tt": tt, "fmt": fmt, "steps": steps})
     # the witness of C11_roundtrip_ph_inv_only_refuted, replayed on the implementation and compared with the model
     wb = ["b", [], None, "", [["i", [], None, "", []]]]
     scs.append({"kind": "history", "tt": ["p"], "fmt": ["b"], "witness": "C11_roundtrip_ph_inv_only_refuted",
                 "steps": [["get", wb, 1, None], ["get", wb, 0, 0xE007], ["do", ["p", [], None, "", [wb]]], ["table"], ["undo", 0]]})
+    # the witnesses of C11_roundtrip_any_document_refuted (private-use characters in the document)
+    for ch in ("\ue001", "\ue002"):
+        scs.append({"kind": "history", "tt": ["p"], "fmt": ["b"], "witness": "C11_roundtrip_any_document_refuted",
+                    "steps": [["do", ["p", [], "a" + ch + "b", "", []]], ["table"], ["undo", 0]]})
     return scs, nexh
 
 
@@ -438,7 +447,8 @@ PRE = """From Coq Require Import List NArith Bool. Import ListNotations.
 Require Import XV.Placeholder. Local Open Scope N_scope.
 Notation X := XNode.
 Inductive step := SOp (o : op) (r : opres) | SUndo (t : xtree) (r : res xtree)
-  | STable (tb : list (N * entry)) (c : N) (tk : list (ttype * option N * N)).
+  | STable (tb : list (N * entry)) (c : N) (tk : list (ttype * option N * N))
+  | SSplit (x : str) (r : list str) (isp : list bool).
 Definition case := (list str * list str * list step)%type.
 Definition err_eqb (a b : err) : bool :=
   match a, b with EFuel, EFuel | EIndex, EIndex | ENoParent, ENoParent | EKey, EKey => true | _, _ => false end.
@@ -464,6 +474,8 @@ Fixpoint run (tt fmt : list str) (s : state) (steps : list step) : bool :=
     list_eqb entry_eqb (rev (p2t s)) tb && N.eqb (ctr s) c
     && list_eqb tk_eqb (map (fun kc => (snd (fst (fst kc)), snd (fst kc), snd kc)) (rev (t2p s))) tk
     && run tt fmt s rest
+  | SSplit x r isp :: rest =>
+    list_eqb str_eqb (split_string s x) r && list_eqb Bool.eqb (map (is_ph s) x) isp && run tt fmt s rest
   end.
 Definition check (c : case) : bool := let '(tg, fmt, steps) := c in run tg fmt ph_init steps.
 """
@@ -515,6 +527,8 @@ def ctrace(tr):
     if tr[0] == "undo":
         r = tr[2]
         return "SUndo %s %s" % (ctree(tr[1]), "(Ok %s)" % ctree(r[1]) if r[0] == "ok" else "(Err %s)" % r[1])
+    if tr[0] == "split":
+        return "SSplit %s [%s] [%s]" % (cs(tr[1]), ";".join(cs(x) for x in tr[2]), ";".join("true" if b else "false" for b in tr[3]))
     tb = "[" + ";".join("(%d,(%s,%s,%s))" % (e[0], ctree(e[1]), TT[e[2]], con(e[3])) for e in tr[1]) + "]"
     tk = "[" + ";".join("(%s,%s,%d)" % (TT[e[0]], con(e[1]), e[2]) for e in tr[3]) + "]"
     return "STable %s %d %s" % (tb, tr[2], tk)
@@ -528,7 +542,7 @@ def coq_case(sc, trace):
 def modelable(trace):
     """Exceptions other than the four modelled kinds (e.g. chr() out of range) are outside the model."""
     for tr in trace:
-        r = tr[2] if tr[0] != "table" else None
+        r = tr[2] if tr[0] in ("op", "undo") else None
         if r and r[0] == "err" and r[1].startswith("other:"):
             return False
     return True
@@ -559,7 +573,17 @@ def main(run):
     skipped = len(scs) - len(idx)
     bad, log = [], ""
     if pinfo.get("build_ok"):
-        bad, log = lib.run_cases("C11", PRE, [coq_case(scs[i], traces[i]) for i in idx], chunk=max(60, len(idx) // 48 + 1))
+        # a name of our own, so that concurrent runs (other tiers) do not overwrite each other's case files
+        cname = "C11%s%d" % (run.tier[0], os.getpid())
+        try:
+            bad, log = lib.run_cases(cname, PRE, [coq_case(scs[i], traces[i]) for i in idx], chunk=max(60, len(idx) // 48 + 1))
+        finally:
+            for f in os.listdir(lib.CASES):
+                if f.startswith(cname + "_") or f.startswith("." + cname + "_"):
+                    try:
+                        os.unlink(os.path.join(lib.CASES, f))
+                    except OSError:
+                        pass
     bad = [idx[b] for b in bad] if all(b < len(idx) for b in bad) else bad
     run.log("correspondence: %d scenarios (%d outside the model), %d disagreements; oracle violations on impl: %d"
             % (len(idx), skipped, len(bad), len(viols)))
@@ -616,7 +640,8 @@ def main(run):
         "etree.tounicode is injective on subtrees as modelled by XV.Placeholder.knorm (attribute order as stored; '' text before children = no text)",
         "documents use no namespaces (in particular not the diff namespace), no comments/PIs inside text tags; chr() range (U+10FFFF) not reached",
         "table elements are compared by the value they have when do_tree returns (live objects are mutated during do_tree; nothing reads them meanwhile)",
-        "no Python recursion limit (model uses explicit fuel, default_fuel proved sufficient in the scope of C11_roundtrip)",
+        "Python's recursion limit is modelled by fuel: undo_tree runs with at least UNDO_DEPTH = 400 levels; C11_roundtrip carries the guard xheight T < UNDO_DEPTH, C11_roundtrip_any_fuel covers every depth",
+        "documents contain no private-use characters of the placeholder range (no_pua); without it the round trip is false of the code (C11_roundtrip_any_document_refuted, replayed each run)",
     ]
     lib.conclude(run, ok, pinfo, corr, viols, deeper)
 
